@@ -322,7 +322,7 @@ def main(tier, seed, replay, jobs, scale):
         import json
         cases = [tuple(json.load(open(replay))["replay"]["case"])]
     else:
-        n = int((360 if tier == "quick" else 1500) * scale)
+        n = int((360 if tier == "quick" else 6000) * scale)
         cases = [(seed, i, tier) for i in range(n)]
     par.absorb(run, par.run_cases(run_case, cases, jobs))
     run.assumptions += ["one content copy outside the data disks always survives",
